@@ -370,7 +370,7 @@ class RegexReplacePlaceholders(Contract):
                 if i == 1:
                     c.require(pat is inp["res"][1], "a result with placeholders left keeps its parts")
                 else:
-                    c.require(pat is inp["res"][0] or (isinstance(pat, Sym) and pat.kind == "str" and "strof" in str(pat.t)), "a complete result is taken as its text str(result) (or as it is)")
+                    c.require(pat is inp["res"][0] or pat is inp["texts"][0], "a complete result is taken as its text str(result) (or as it is)")
 
     def frame_ok(self, I, inp, obj, name):
         return False
